@@ -42,7 +42,9 @@ CHECKS = {
     "recorded as events) on two-member enums whose first member is any non-negative finite f64 literal, its negation, or absent: the value "
     "loaded for the member without initialiser equals the TypeScript emit (previous constant + 1 in doubles), forward and reverse stores "
     "are emitted for both members in order, a member WITH an initialiser gets its value from the expression compiler (never a constant "
-    "loaded by the declaration itself, so `-0` stays -0), and compilation never panics. Seven TypeScript programs (enums with -0 / string "
+    "loaded by the declaration itself, so `-0` stays -0), and compilation never panics. Compiler::compile_constructor_body on one "
+    "parameter with symbolic accessibility/readonly flags and a one-statement body emits the store `this.x = x` iff the parameter is a "
+    "parameter property and before the first body statement is compiled. Seven TypeScript programs (enums with -0 / string "
     "/ mixed members, a namespace merged with a function, constructor parameter properties incl. defaults and early return) are compared "
     "with the JavaScript the TypeScript compiler emits for them - a replay route. EnumData (value.rs) is unreachable from compiled "
     "programs and is not the kernel. Computed/const/merged enums, nested and merged namespaces and abstract classes are outside the claim.")),
